@@ -239,6 +239,15 @@ func runOne(st Stim) Trace {
 				ch <- a.B
 				ev.Applied = true
 			}
+		case "lapse":
+			// the exchange lifetime of everything stored so far elapses; no sweep runs: the entries stay in the table, expired
+			if before := len(u.CC.VerifState().RespCache); before > 0 {
+				u.CC.VerifAgeResponseCache(248 * time.Second)
+				w.mu.Lock()
+				w.log = append(w.log, LogEv{E: "lapse", Q: before, Tok: []int{}, Pay: []int{}, Opts: []int{}})
+				w.mu.Unlock()
+				ev.Applied = true
+			}
 		case "expire":
 			// a housekeeping sweep just after the exchange lifetime of everything stored so far
 			var earliest, latest time.Time
